@@ -206,3 +206,19 @@ func init() {
 		return nil
 	}
 }
+
+func init() {
+	// vpLazyBytes(name, maxLen): a byte slice whose length (0..maxLen) and bytes are symbolic and are only
+	// case-split / created when the code under test looks at them.
+	intrinsics["vpLazyBytes"] = func(ex *Exec, c *frame, fn *ssa.Function, a []Value) Value {
+		name := ex.mustStr(a[0], "vp name")
+		maxLen := int64(ex.concretize(a[1].(*Term), "vpLazyBytes maxLen"))
+		ln := ex.newInput("lazy", name+".len", 64)
+		ex.addAssume(ex.tc.And(ex.tc.Cmp(OSle, ex.i64(0), ln), ex.tc.Cmp(OSle, ln, ex.i64(maxLen))))
+		sp := &Sparse{cells: make(map[int64]*Value), length: ln}
+		sp.mk = func(i int64) Value {
+			return ex.newInput("lazy", fmt.Sprintf("%s[%d]", name, i), 8)
+		}
+		return &SliceV{sp: sp, len: ln, cap: ln}
+	}
+}
